@@ -102,6 +102,27 @@ def f(fscope):
             'a generated symbol (fscope_1) coincides with it: converted gives %r, original %r' % (got, want))
 
 
+@witness('D8-liveness-mutates-scope-read', ['C07'])
+def d8():
+  import ast
+  from malt.pyct import anno, cfg, qual_names
+  from malt.pyct.static_analysis import activity, liveness
+  a = ast.Expr(ast.Constant(0))
+  sc = activity.Scope(None)
+  x, T = qual_names.QN('x'), qual_names.QN('T')
+  sc.read = {x, T}
+  sc.annotations = {T}
+  anno.setanno(a, anno.Static.SCOPE, sc)
+  anno.setanno(a, anno.Static.DEFINED_FNS_IN, frozenset())
+  nd = cfg.Node(set(), set(), a)
+  g = cfg.Graph(entry=nd, exit=frozenset([nd]), error=frozenset(), index={a: nd}, stmt_prev={}, stmt_next={})
+  an = liveness.Analyzer(g, False)
+  an.visit_node(nd)
+  if sc.read != {x, T}:
+    return ('liveness.Analyzer(include_annotations=False).visit_node removes the annotations from the '
+            'Scope.read set in place (gen aliases node_scope.read): read is now %s' % sorted(map(str, sc.read)))
+
+
 def main():
   prop = sys.argv[1]
   failing, run = [], 0
